@@ -76,6 +76,18 @@ def proof_stage(pid):
     info['ok'] = True
     return info
 
+def coqchk_stage(pid):
+    """thorough tier: re-check the compiled Props module and everything it depends on with the
+    independent checker, and read its context summary (axioms, type-in-type, unsafe fixpoints)"""
+    cmd = 'flock -s build/.lock timeout 3000 coqchk -silent -o -Q coq FxpVerif FxpVerif.Props.%s' % pid
+    rc, out = sh(cmd, timeout=3100)
+    info = {'cmd': 'coqchk -silent -o -Q coq FxpVerif FxpVerif.Props.%s' % pid, 'rc': rc, 'ok': False, 'summary': out[-1500:]}
+    m = re.search(r'\* Axioms:\s*(.*?)\n\s*\n\* Constants/Inductives relying on type-in-type:\s*(.*?)\n\s*\n\* Constants/Inductives relying on unsafe \(co\)fixpoints:\s*(.*?)\n\s*\n\* Inductives whose positivity is assumed:\s*(.*?)\n', out, flags=re.S)
+    if rc == 0 and m:
+        info['axioms'], info['type_in_type'], info['unsafe_fix'], info['assumed_positive'] = [x.strip() for x in m.groups()]
+        info['ok'] = all(x == '<none>' for x in m.groups())
+    return info
+
 def load_known():
     p = os.path.join(VERIF, 'known_findings.json')
     if not os.path.exists(p): return []
@@ -128,6 +140,11 @@ def main():
     else:
         # ---- stage 1: proof obligations ---------------------------------------
         proof = proof_stage(pid)
+        if tier == 'thorough' and proof['ok'] and not os.environ.get('VERIF_SKIP_COQCHK'):
+            chk = coqchk_stage(pid)
+            proof['coqchk'] = chk
+            if not chk['ok']:
+                proof['ok'] = False; proof['broken'] = 'coqchk re-check of FxpVerif.Props.%s' % pid; proof['log'] = chk['summary']
         # ---- stage 2: NP layer + correspondence -------------------------------
         import np_layer
         np_res = np_layer.validate(seed, tier)
@@ -191,6 +208,7 @@ def main():
             'hand-written model (coq/*.v) tied to /repo by this correspondence run, sampled not proved',
             'extraction (ExtrOcamlBasic directives only), ocaml/driver.ml, harness/*.py',
         ],
+        'coqchk': proof.get('coqchk', 'not run in this tier (thorough only)'),
         'theorems': proof.get('theorems', []),
         'examples': proof.get('examples', []),
         'evaluations': res.evaluations,
